@@ -25,7 +25,7 @@ RULE = ("one run = one session set between blob-exchange peers on simulated TCP.
         "each requesting 1..5 blobs sequentially on one connection (request_blob or BlobDownloader), both "
         "directions re-chunked by the scheduler (1-byte fragments, header alone, header glued to body, cuts at "
         "structural bytes), latencies below the timeouts. family `hostile_server`: real client against a scripted "
-        "server applying one misbehaviour of a 27-entry catalogue at a seeded message position, then an honest "
+        "server applying one misbehaviour of a 28-entry catalogue at a seeded message position, then an honest "
         "transfer. family `hostile_client`: real server against a scripted client (15-entry catalogue) while honest "
         "clients are served concurrently and afterwards. A wire monitor parses everything real servers write. "
         "Non-trivial = at least one transfer attempted over a re-chunked stream or one misbehaviour fired; "
@@ -54,6 +54,7 @@ EXPECTED_PROBES = ['honest_transfer_ok', 'one_byte_fragments', 'header_alone', '
 
 MAX = 2 * 1024 * 1024
 SERVER_CATALOGUE = ['wrong_hash', 'length_short', 'length_long', 'length_zero', 'length_negative', 'length_huge', 'length_string',
+                    'length_float',
                     'corrupt_byte', 'short_then_silence', 'excess_bytes', 'unsolicited_first', 'unsolicited_between',
                     'availability_mismatch', 'availability_empty', 'price_rejected', 'error_object', 'malformed_json',
                     'nested_json', 'oversized_json', 'non_utf8', 'body_without_header', 'drip', 'reset_mid_body',
@@ -440,6 +441,12 @@ def execute(scenario, keep_trace=False):
         if verified and data is None:
             run.violation('C10.verified_without_file', f'{where}: blob {h[:12]} is marked verified but no file exists', where=where)
             return False
+        if verified and (type(blob.get_length()) is not int or blob.get_length() != len(data)):
+            # this node would now announce that length in its own headers ("a header naming exactly that hash and length")
+            run.violation('C10.verified_wrong_length', f'{where}: blob {h[:12]} is verified with the right {len(data)} bytes on '
+                          f'disk but its length is {blob.get_length()!r}', where=where,
+                          length=type(blob.get_length()).__name__)
+            return False
         if h in node['bm'].completed_blob_hashes and data is None:
             run.violation('C10.completed_without_file', f'{where}: blob {h[:12]} is announced as completed but no file exists', where=where)
             return False
@@ -712,6 +719,8 @@ def execute(scenario, keep_trace=False):
                 t.write(self.header(h, MAX + 1 + int(p * 10 ** 9)) + content)
             elif beh == 'length_string':
                 t.write(self.header(h, str(n)) + content)
+            elif beh == 'length_float':
+                t.write(self.header(h, float(n)) + content)
             elif beh == 'corrupt_byte':
                 pos = min(n - 1, int(p * n))
                 bad = bytearray(content)
